@@ -28,9 +28,14 @@ SUM_ROW = re.compile(r"\{([^}]*)\}\s*[^\d\s]\s*(\d+)\s*[^\d\s]\s*([\d.]+)")
 TREE_ROW = re.compile(r"^\[([A-Z-]*) \|\s*(\S+) \|\s*(\S+) \|\s*(\S+)\] (.*)$")
 
 
-def cli(mod, args, cwd):
+def cli(mod, args, cwd, trace=None):
+    """run a front end in a fresh interpreter; with `trace`, the CBI_VERIF hooks write their events there"""
     env = dict(os.environ, PYTHONPATH=core.repo_path())
     env.pop("CBI_VERIF", None)
+    env.pop("CBI_VERIF_TRACE", None)
+    if trace:
+        env["CBI_VERIF"] = "1"
+        env["CBI_VERIF_TRACE"] = trace
     r = core.run_impl([sys.executable, "-m", mod] + args, 180, cwd=cwd, env=env, capture_output=True, text=True)
     return r.returncode, r.stdout, r.stderr
 
@@ -168,7 +173,13 @@ def replay_chunk(args):
                 stats["nontrivial"] += 1
 
             def summary_check(tomlp, r, what):
-                rc, out, err = cli("codebasin", ["-R", "summary", tomlp], m.root)
+                # every fourth scenario: the front end runs with the hooks on and its trace is validated (V)
+                tf = os.path.join(base, "cli_trace.ndjson") if (si % 4 == 0 and what == "summary") else None
+                rc, out, err = cli("codebasin", ["-R", "summary", tomlp], m.root, trace=tf)
+                if tf and os.path.exists(tf):
+                    from .. import trace_preproc
+                    stats.setdefault("traces", []).extend(trace_preproc.load_trace_file(tf, f"c06cli:{si}"))
+                    os.unlink(tf)
                 stats["evals"] += 1
                 if rc != 0:
                     return [f"{what}: codebasin exited {rc}: {out[-300:]}{err[-300:]}"]
@@ -281,13 +292,19 @@ def run(ctx):
     ctx.sample({"ents": c0["ents"], "expected_summary": c0["rep"]["setmap"], "expected_tree": c0["rep"]["tree"][:4]})
     work = ctx.scratch()
     jobs = [(c, ctx.seed, work) for c in runner.chunks(cases, runner.NCPU * 2)]
+    loaded = []
     for lst in runner.pmap(_jobs, jobs, chunk=1):
         for fails, stats in lst:
             ctx.cov["evaluations"] += stats["evals"]
             ctx.cov["distinct_nontrivial"] += stats["nontrivial"]
             ctx.cov["skipped"] = ctx.cov.get("skipped", 0) + stats["skipped"]
+            loaded.extend(stats.get("traces", []))
             for f in fails:
                 ctx.fail(f["layer"], f["tags"], f["symptom"], f["detail"], f["case"])
+    # V: the executions of the `codebasin` front end itself (fresh interpreter, hooks switched on by the
+    # environment) are judged event by event by Trace_Preproc
+    from .. import trace_preproc
+    trace_preproc.validate(ctx, [], tag="C06", loaded=loaded)
 
 
 def replay(ctx, path):
